@@ -41,6 +41,7 @@ ASSUMPTIONS = [
     "upload faults are injected per (destination store, object id) through put_file of the destination file system",
     "a directory entry that some prefix covers has a remote designated for its own key (else a fetch into an empty "
     "cache cannot load it: DataIndexDirError)",
+    "an entry with a designated remote has a designated cache for its own key (index.save asserts it)",
     "no two contents in play collide under md5; objects are genuine (corruption is C07's subject)",
 ]
 
@@ -628,6 +629,10 @@ def usable(case, rng=None):
     # a directory entry that is reached must be loadable at fetch time: its own key needs a remote
     for kind, k, t in C.items:
         if kind == "dir" and covered(C.map, k) and resolve(C.map, k, "remote") is None:
+            return None
+    # an entry with a designated remote needs a designated cache for its own key (index.save asserts it)
+    for k, _t in C.entries(C.map):
+        if resolve(C.map, k, "remote") is not None and resolve(C.map, k, "cache") is None:
             return None
     multi = not C.single_cache_per_group()
     if multi and not MULTI_CACHE_STREAM:
